@@ -746,56 +746,56 @@ pub fn scenarios(thorough: bool) -> Vec<Scenario> {
             about: "cw3-flex-multisig (threshold 2 of v1:1,v2:2; voting period 3 blocks; native deposit 1ucosm, refunded) backed by cw4-group with the multisig registered as group hook; proposals send 2ucosm from the multisig (which holds 1 + deposits, so execution may fail for lack of funds)".into(),
             depth: d(5, 6),
             build: Box::new(build_flex_native),
-            notes: vec![],
+            notes: vec!["all bank recipients are valid bech32 addresses (multi-test does not validate BankMsg::Send recipients, the kernel and a real chain do)".into(), "no response of these contracts carries an empty attribute value on the explored paths (multi-test would refuse it, the kernel ignores attributes)".into()],
         },
         Scenario {
             name: "b:cw3-flex,cw20-deposit".into(),
             about: "cw3-flex-multisig with a cw20 deposit of 2 TOK on a real cw20-base: proposer raises an allowance, propose pulls the deposit with TransferFrom, execute/close refund it with Transfer; the proposal itself transfers 2 TOK out of the multisig (which holds 2 TOK + deposits, so a second execution fails for lack of funds)".into(),
             depth: d(5, 6),
             build: Box::new(build_flex_cw20),
-            notes: vec![],
+            notes: vec!["all bank recipients are valid bech32 addresses (multi-test does not validate BankMsg::Send recipients, the kernel and a real chain do)".into(), "no response of these contracts carries an empty attribute value on the explored paths (multi-test would refuse it, the kernel ignores attributes)".into()],
         },
         Scenario {
             name: "c1:cw4-stake,native".into(),
             about: "cw4-stake over a native denom (min_bond 2, unbonding 2 blocks) with a recorder registered as membership hook: bond (right/wrong/no funds), unbond, claim, advance".into(),
             depth: d(5, 6),
             build: Box::new(build_stake_native),
-            notes: vec![],
+            notes: vec!["all bank recipients are valid bech32 addresses (multi-test does not validate BankMsg::Send recipients, the kernel and a real chain do)".into(), "no response of these contracts carries an empty attribute value on the explored paths (multi-test would refuse it, the kernel ignores attributes)".into()],
         },
         Scenario {
             name: "c2:cw4-stake,cw20".into(),
             about: "cw4-stake over a cw20-base token: cw20 Send{Bond} -> Receive hook path (also with an invalid payload, which must revert the Send), unbond, claim (stake contract transfers cw20 back), advance".into(),
-            depth: d(5, 6),
+            depth: d(5, 5),
             build: Box::new(build_stake_cw20),
-            notes: vec![],
+            notes: vec!["all bank recipients are valid bech32 addresses (multi-test does not validate BankMsg::Send recipients, the kernel and a real chain do)".into(), "no response of these contracts carries an empty attribute value on the explored paths (multi-test would refuse it, the kernel ignores attributes)".into()],
         },
         Scenario {
             name: "d:cw20-send->receiver".into(),
             about: "cw20-base Send/SendFrom to a receiver contract that accepts, returns data, rejects (whole tx reverts), or re-enters the token to forward the funds (with and without enough balance); Send to an address without contract; Send to a recorder".into(),
-            depth: d(5, 6),
+            depth: d(5, 5),
             build: Box::new(build_cw20_send),
-            notes: vec![],
+            notes: vec!["all bank recipients are valid bech32 addresses (multi-test does not validate BankMsg::Send recipients, the kernel and a real chain do)".into(), "no response of these contracts carries an empty attribute value on the explored paths (multi-test would refuse it, the kernel ignores attributes)".into()],
         },
         Scenario {
             name: "e1:replier,full-alphabet".into(),
             about: "replier stub (one function set, run as kernel ContractVt and as multi-test ContractWrapper): every target (bank ok / bank fail / burn / execute recorder with and without funds / execute on missing contract / nested self and peer calls that succeed, fail after partial effects, handle their own errors, fail in reply, nest three levels) x reply_on never/success/error/always x reply behaviour (plain / sets data / fails / emits a further message and sets data), plus multi-sub plans for data override order".into(),
             depth: d(2, 2),
             build: Box::new(|| build_replier("full")),
-            notes: vec![],
+            notes: vec!["the replier never sets SubMsg.payload (multi-test 2.0.0 always hands reply an empty payload; the kernel forwards it like wasmd 2.x)".into(), "the replier never returns data = Some(empty) (indistinguishable from None behind the protobuf wrapper)".into(), "reply does not look at Reply.result events / msg_responses / gas_used (not modelled by the kernel)".into()],
         },
         Scenario {
             name: "e2:replier,deep".into(),
             about: "replier stub with a reduced alphabet and longer sequences (the replier's 2 and the peer's 1 coins run out, so the same plan changes outcome along a trace)".into(),
             depth: d(4, 5),
             build: Box::new(|| build_replier("deep")),
-            notes: vec![],
+            notes: vec!["the replier never sets SubMsg.payload (multi-test 2.0.0 always hands reply an empty payload; the kernel forwards it like wasmd 2.x)".into(), "the replier never returns data = Some(empty) (indistinguishable from None behind the protobuf wrapper)".into(), "reply does not look at Reply.result events / msg_responses / gas_used (not modelled by the kernel)".into()],
         },
         Scenario {
             name: "e3:replier,reply-data".into(),
-            about: "what `reply` receives as `data` after a successful sub-call (recorded byte-for-byte in the replier's log) and echoing it as the caller's own data".into(),
+            about: "what `reply` receives as `data` after a successful sub-call (recorded byte-for-byte in the replier's log: for WasmMsg::Execute it must be the protobuf MsgExecuteContractResponse wrapper around the callee's data, for bank messages nothing) and echoing it as the caller's own data; this scenario found the kernel handing over the unwrapped data (repaired in mc::world::dispatch_msg / wrap_execute_response)".into(),
             depth: d(2, 3),
             build: Box::new(|| build_replier("reply-data")),
-            notes: vec![],
+            notes: vec!["the replier never sets SubMsg.payload (multi-test 2.0.0 always hands reply an empty payload; the kernel forwards it like wasmd 2.x)".into(), "the replier never returns data = Some(empty) (indistinguishable from None behind the protobuf wrapper)".into(), "reply does not look at Reply.result events / msg_responses / gas_used (not modelled by the kernel)".into()],
         },
     ]
 }
